@@ -1,7 +1,7 @@
 (* Command dispatcher of the executable model: bin/modelrun calls [run_cmd] and nothing else.
    All formatting of results is done here, in Gallina, so the OCaml glue stays trivial. *)
 From Coq Require Import List String Ascii Bool ZArith.
-From KV Require Import Strings PitchGen IntervalGen Pitch PitchSpec RunCat RunGkern RunSpine.
+From KV Require Import Strings PitchGen IntervalGen Pitch PitchSpec RunCat RunGkern RunSpine RunTok RunDoc.
 Import ListNotations.
 Open Scope string_scope.
 
@@ -98,5 +98,11 @@ Definition run_cmd (cmd : string) (args : list string) : string :=
   | None =>
   match run_spine cmd args with
   | Some r => r
+  | None =>
+  match run_tok cmd args with
+  | Some r => r
+  | None =>
+  match run_doc cmd args with
+  | Some r => r
   | None => err "unknown-command"
-  end end end end.
+  end end end end end end.
